@@ -1,6 +1,7 @@
 package props
 
 import (
+	"context"
 	"fmt"
 	"math/rand"
 	"os"
@@ -163,6 +164,17 @@ func c17Sequence(run *evid.Run, cfg Cfg, c *rig.Cluster, ids []uint64, k int) {
 	peer := c.Endpoint(ids[0]).Name
 	// Contributions are observed on the routing sender.
 	c17Observe(c, w)
+	// Every fourth prepare and abort comes from a caller that has already gone away (its request context is cancelled
+	// when the handler runs): the lifecycle rules are the same for it.
+	abandoned := func(base context.Context) (context.Context, string) {
+		if r.Intn(4) != 0 {
+			return base, ""
+		}
+		cctx, cancel := context.WithCancel(base)
+		cancel()
+		run.Count("requests_with_cancelled_context", 1)
+		return cctx, " (cancelled context)"
+	}
 	prepare := func(inst uint64, acct string, t uint32) {
 		req := &pb.PrepareRequest{Account: acct, Passphrase: []byte("pass"), Threshold: t}
 		for _, p := range ids {
@@ -170,14 +182,15 @@ func c17Sequence(run *evid.Run, cfg Cfg, c *rig.Cluster, ids []uint64, k int) {
 			req.Participants = append(req.Participants, &pb.Endpoint{Id: e.ID, Name: e.Name, Port: e.Port})
 		}
 		b0 := time.Now()
-		_, err := c.Inst[inst].Stack.ReceiverH.Prepare(rig.PeerCtx(peer), req)
+		pctx, how := abandoned(rig.PeerCtx(peer))
+		_, err := c.Inst[inst].Stack.ReceiverH.Prepare(pctx, req)
 		b1 := time.Now()
 		c17Progress.Add(1)
 		w.mu.Lock()
 		defer w.mu.Unlock()
 		s := w.get(inst, acct)
 		st := s.status(b0, b1)
-		w.log("prepare inst=%d %s t=%d -> err=%v (model: %s)", inst, acct, t, err != nil, stName(st))
+		w.log("prepare%s inst=%d %s t=%d -> err=%v (model: %s)", how, inst, acct, t, err != nil, stName(st))
 		run.Eval(1)
 		run.Distinct(fmt.Sprintf("prepare model=%s ok=%v", stName(st), err == nil))
 		switch st {
@@ -208,6 +221,7 @@ func c17Sequence(run *evid.Run, cfg Cfg, c *rig.Cluster, ids []uint64, k int) {
 		b0 := time.Now()
 		var err error
 		var pub []byte
+		how := ""
 		switch kind {
 		case "execute":
 			_, err = c.Inst[inst].Stack.ReceiverH.Execute(rig.PeerCtx(peer), &pb.ExecuteRequest{Account: acct})
@@ -218,7 +232,9 @@ func c17Sequence(run *evid.Run, cfg Cfg, c *rig.Cluster, ids []uint64, k int) {
 				pub = res.GetPublicKey()
 			}
 		case "abort":
-			_, err = c.Inst[inst].Stack.ReceiverH.Abort(rig.PeerCtx(peer), &pb.AbortRequest{Account: acct})
+			var actx context.Context
+			actx, how = abandoned(rig.PeerCtx(peer))
+			_, err = c.Inst[inst].Stack.ReceiverH.Abort(actx, &pb.AbortRequest{Account: acct})
 		case "contribute":
 			sec, vv := fakeContribution(2, inst)
 			_, err = c.Inst[inst].Stack.ReceiverH.Contribute(rig.PeerCtx(c.Endpoint(ids[(int(inst))%3]).Name), &pb.ContributeRequest{Account: acct, Secret: sec, VerificationVector: vv})
@@ -229,7 +245,7 @@ func c17Sequence(run *evid.Run, cfg Cfg, c *rig.Cluster, ids []uint64, k int) {
 		defer w.mu.Unlock()
 		s := w.get(inst, acct)
 		st := s.status(b0, b1)
-		w.log("%s inst=%d %s -> err=%v (model: %s)", kind, inst, acct, err != nil, stName(st))
+		w.log("%s%s inst=%d %s -> err=%v (model: %s)", kind, how, inst, acct, err != nil, stName(st))
 		run.Eval(1)
 		run.Distinct(fmt.Sprintf("%s model=%s ok=%v", kind, stName(st), err == nil))
 		if st == sUnknown {
